@@ -149,6 +149,20 @@ func main() {
 			// ---------- reference run
 			fs0 := crashfs.New()
 			cfg.FS = fs0
+			// big: blocks whose write batch runs to 100-200 KiB (payload limit raised; transaction
+			// bodies are stored once per transaction) - however large the step, it stays one atomic write
+			big := r.Intn(6) == 0
+			if big {
+				cfg.MaxTransactionsLength = 192 * 1024
+			}
+			bigBlock := func(n *node.Node) (*blockchain.Block, error) {
+				var txs []*blockchain.Transaction
+				for j := 0; j < 7+r.Intn(6); j++ {
+					txs = append(txs, n.NewTx(n.Universe[r.Intn(len(n.Universe))], uint64(5000+j), uint64(1000+r.Intn(100000)), node.TxVerifyOK, node.TxExecOK, 9000+r.Intn(4500)))
+				}
+				k.Count("big_blocks_built", 1)
+				return n.NextBlock(node.BlockOpts{Txs: txs, Directive: &node.Directive{Salt: r.Intn(1 << 20), Events: r.Intn(3)}})
+			}
 			kinds := []string{"genesis", "apply", "apply", "apply", "delete", "delete-temp", "reorg", "reapply-temp", "clear-temp"}
 			kind := kinds[r.Intn(len(kinds))]
 			var preBlocks []*blockchain.Block
@@ -183,6 +197,9 @@ func main() {
 			pre := 1 + r.Intn(18)
 			for i := 0; i < pre; i++ {
 				b, _, err := n0.RandomValid(r)
+				if big && i == pre-1 && kind != "apply" {
+					b, err = bigBlock(n0) // the block that the step removes / re-applies
+				}
 				if err != nil {
 					k.Inconclusive("build")
 					n0.Close()
@@ -206,6 +223,9 @@ func main() {
 			switch kind {
 			case "apply":
 				b, _, err := n0.RandomValid(r)
+				if big {
+					b, err = bigBlock(n0)
+				}
 				if err != nil {
 					k.Inconclusive("build")
 					n0.Close()
